@@ -444,3 +444,26 @@ M("C19", "weight-store-in-decider", INI, "        weights = [w(alt) * self.gramm
 M("C19", "weights-misaligned", INI, "        weights = [w(alt) * self.grammar.get_weights()[alt] for alt in alternatives]", "        weights = [w(alt) * self.grammar.get_weights()[alt] for alt in sorted(self.grammar.alternatives[ty], key=str)]", "C19.R3")
 M("C19", "weighted-draw-inclusive", SRC, "self.randint(0, max(total - 1, 0))", "self.randint(0, total)", "C19.R3")
 M("C19", "twin-divide-augassign", GRM, "                weights[prod] = weights[prod] / total_weights", "                weights[prod] /= total_weights", "", expect="silent")
+
+# ---- round 4 rules: mutants and twins
+SGP = "geml/simplegp.py"
+M("C19", "pt-decider-no-fallback", INI, "        if not any(x > 0 for x in weights):\n", "        if False:\n", "C19.R5")
+M("C19", "twin-pt-decider-fallback-by-sum", INI, "        if not any(x > 0 for x in weights):\n", "        if max(weights, default=0) <= 0:\n", "", expect="silent")
+M("C14", "build-budget-truthiness", SGP, "        if target_fitness is None:\n            return base\n        else:\n            return AnyOf(TargetFitness(target_fitness), base)",
+  "        if not target_fitness:\n            return base\n        else:\n            return AnyOf(TargetFitness(target_fitness), base)", "C14.R6")
+M("C14", "twin-build-budget-flat", SGP, "        if target_fitness is None:\n            return base\n        else:\n            return AnyOf(TargetFitness(target_fitness), base)",
+  "        if target_fitness is not None:\n            base = AnyOf(TargetFitness(target_fitness), base)\n        return base", "", expect="silent")
+M("C14", "target-fitness-default-problem", BUD, "        comps = best.get_fitness(tracker.get_problem()).fitness_components\n        if isinstance(self.value, float):",
+  "        comps = best.get_fitness().fitness_components\n        if isinstance(self.value, float):", "C14.R3")
+M("C20", "recorder-fields-truthiness", REC, "        if fields is not None:\n            self.fields = fields\n", "        if fields:\n            self.fields = dict(fields)\n", "C20.R3")
+M("C20", "twin-recorder-fields-copied", REC, "        if fields is not None:\n            self.fields = fields\n", "        if fields is not None:\n            self.fields = dict(fields)\n", "", expect="silent")
+M("C18", "decider-wide-range-memo-by-width", INI, "            half = width // 2\n            n = self.random.randint(0, 10)\n            e = self.random.randint(0, round(log10(width)))\n\n            extra = pow(n, e) % (half + 1)\n            extra = extra if self.random_bool() else -extra\n            v = min_int + half + extra\n            return v",
+  "            if not hasattr(self, \"_wide\"):\n                self._wide = {}\n            if width not in self._wide:\n                self._wide[width] = (min_int + width // 2, width // 2)\n            centre, half = self._wide[width]\n            n = self.random.randint(0, 10)\n            e = self.random.randint(0, round(log10(width)))\n\n            extra = pow(n, e) % (half + 1)\n            extra = extra if self.random_bool() else -extra\n            return centre + extra", "C18.R5")
+M("C18", "twin-decider-exponent-memo-by-width", INI, "            e = self.random.randint(0, round(log10(width)))\n\n            extra = pow(n, e) % (half + 1)",
+  "            if not hasattr(self, \"_exp\"):\n                self._exp = {}\n            if width not in self._exp:\n                self._exp[width] = round(log10(width))\n            e = self.random.randint(0, self._exp[width])\n\n            extra = pow(n, e) % (half + 1)", "", expect="silent")
+M("C15", "mutation-step-counts-only-mutants", MUT, "        for index, ind in enumerate(population):\n            if index < target_size:\n                v = random.random_float(0, 1)\n                if v <= self.probability:\n                    logger.debug(f\"Mutating {id(ind)}\")\n                    mutated = representation.mutate(random, ind.genotype)\n                    nind = self.wrap(representation, mutated)\n                    yield nind\n                else:\n                    yield ind",
+  "        produced = 0\n        for ind in population:\n            if produced >= target_size:\n                break\n            v = random.random_float(0, 1)\n            if v <= self.probability:\n                mutated = representation.mutate(random, ind.genotype)\n                nind = self.wrap(representation, mutated)\n                yield nind\n                produced += 1\n            else:\n                yield ind", "C15.R2")
+M("C15", "twin-mutation-step-counter-loop", MUT, "        for index, ind in enumerate(population):\n            if index < target_size:\n                v = random.random_float(0, 1)\n                if v <= self.probability:\n                    logger.debug(f\"Mutating {id(ind)}\")\n                    mutated = representation.mutate(random, ind.genotype)\n                    nind = self.wrap(representation, mutated)\n                    yield nind\n                else:\n                    yield ind",
+  "        produced = 0\n        for ind in population:\n            if produced >= target_size:\n                break\n            v = random.random_float(0, 1)\n            if v <= self.probability:\n                mutated = representation.mutate(random, ind.genotype)\n                nind = self.wrap(representation, mutated)\n                yield nind\n                produced += 1\n            else:\n                yield ind\n                produced += 1", "", expect="silent")
+M("C16", "parallel-shares-truncated", COMB, "            [int(round(w * len(population) / total, 0)) for w in self.weights],", "            [int(w / total * len(population)) for w in self.weights],", "C16.R4")
+M("C16", "twin-parallel-shares-rounded-proportions", COMB, "            [int(round(w * len(population) / total, 0)) for w in self.weights],", "            [int(round(w / total * len(population))) for w in self.weights],", "", expect="silent")
